@@ -297,6 +297,14 @@ def run(tier):
                       "a '%' at the cursor can be copied into tag text without going through the percent-decoder", site=site(f, f.blocks[bb]["term"]["sp"]),
                       detail={"class": EB.A.show(r["mask"])})
     rep.floor("callers of the percent-decoder", len(callers), 3)
+    # the fields of a %TAG directive (and a tag and its prefix) are separated by blanks, tabs included: whenever the scanners of a
+    # handle, a prefix or a verbatim tag are entered the character at the cursor is neither a space nor a tab (pass B, every context)
+    blankm = EB.A.mask([32, 9])
+    for fn_ in ("scan_tag_handle", "scan_tag_prefix", "scan_verbatim_tag"):
+        ws = classdom.entry_windows(EB, SCANNER + "::" + fn_)
+        off = sorted({EB.A.show(w[0] & blankm) for w, a_ in ws if w[0] & blankm})
+        rep.check(bool(ws) and not off, "field-separator-skipped", fn_, "%s can be entered with a blank still at the cursor (%s): a directive or tag whose fields are separated by "
+                  "that blank is rejected or read wrongly" % (fn_, ", ".join(off) or "no context analysed"), site=F.fns[SCANNER + "::" + fn_].span, detail={"contexts": len(ws)})
     rep.floor("cursor characters copied into tag text", npush, 3)
     return rep
 
